@@ -94,6 +94,6 @@ verus_unit("friv", "friv", ["C15"], ["folding::fold_positions (every list of pos
 verus_unit("assertv", "assertv", ["C16"], ["Assertion::overlaps_with (every trace length)", "Assertion::is_single"])
 
 native_unit("boundary_native", "winter-air", "air", "native/boundary_bounded.rs", ["C16"],
-            ["BoundaryConstraints::new", "boundary::prepare_assertions", "boundary::group_constraints", "BoundaryConstraintGroup::divisor", "BoundaryConstraint::evaluate_at", "ConstraintDivisor::from_assertion", "ConstraintDivisor::evaluate_at"],
-            "assertion lists in which two assertions constrain the same cell are refused in every listing order; otherwise the constraint groups' divisors vanish on exactly the asserted steps of each of their constraints and each constraint compares the cell with the asserted value (value polynomial incl. offset)",
-            "NATIVE EXECUTION, not a proof: trace lengths 8, 16, 32 x 2 columns x every single / periodic / sequence assertion: all single assertions, all ordered pairs, 3000 seeded triples per length; 128-bit field")
+            ["AirContext::set_num_transition_exemptions", "ConstraintDivisor::from_transition", "BoundaryConstraints::new", "boundary::prepare_assertions", "boundary::group_constraints", "BoundaryConstraintGroup::divisor", "BoundaryConstraint::evaluate_at", "ConstraintDivisor::from_assertion", "ConstraintDivisor::evaluate_at"],
+            "assertion lists in which two assertions constrain the same cell are refused in every listing order; otherwise the constraint groups' divisors vanish on exactly the asserted steps of each of their constraints and each constraint compares the cell with the asserted value (value polynomial incl. offset); a number of transition exemptions is accepted exactly when it is in 1..=len/2+1 and the quotient still fits the constraint evaluation domain, and the transition divisor vanishes on exactly the non-exempt steps",
+            "NATIVE EXECUTION, not a proof: trace lengths 8, 16, 32 x 2 columns x every single / periodic / sequence assertion: all single assertions, all ordered pairs, 3000 seeded triples per length; exemptions: trace lengths 8..64 x every count 0..=len x constraint degrees 1..9 alone, in pairs and with periodic cycles; 128-bit field")
